@@ -322,6 +322,35 @@ def umist_multifit_witness(chk):
                       f"message, the reaction has no rate between 101 and 3000 K", input=line)
 
 
+def krome_two_files_one_format(chk):
+    """`fileformats` may be one string for a list of files.  Every KROME file starts from the default column layout: a `@format:` of
+    the first file is not in force in the second."""
+    from naunet.network import Network
+    from .ode_checks import reset_species_state
+    a = chk.scratch / "first.krome"
+    b = chk.scratch / "second.krome"
+    a.write_text("@format:idx,R,R,P,P,rate\n1,H,H,H2,,1.0d-10\n@format:idx,R,P,P,P,Tmin,Tmax,rate\n3,H2,H,H,,NONE,NONE,2.0d-10\n")
+    b.write_text("2,H+,E,,H,g,,,NONE,.LE.5.5e3,3.92d-13\n4,H,E,,H+,E,E,,>1d2,NONE,5.0d-11\n")
+    reset_species_state()
+    try:
+        with silenced():
+            net = Network(filelist=[str(a), str(b)], fileformats="krome", elements=list(ELEMENTS), pseudo_elements=list(PSEUDO))
+    except Exception as e:
+        chk.violation({"kind": "read-raised", "format": "krome", "error": type(e).__name__},
+                      f"reading two KROME files with one format string raised {type(e).__name__}: {e}", input=[a.read_text(), b.read_text()])
+        return
+    got = [([s.name for s in r.reactants], [s.name for s in r.products], r.temp_min, r.temp_max, r.idxfromfile) for r in net.reaction_list]
+    want = [(["H", "H"], ["H2"], -1.0, -1.0, 1), (["H2"], ["H", "H"], -1.0, -1.0, 3), (["H+", "E"], ["H"], -1.0, 5500.0, 2),
+            (["H", "E"], ["H+", "E", "E"], 100.0, -1.0, 4)]
+    chk.count(("krome-two-files",), nontrivial=True)
+    if got != want:
+        i = next((k for k, (g, w) in enumerate(zip(got, want)) if g != w), min(len(got), len(want)))
+        chk.violation({"kind": "decoded-wrong", "format": "krome", "field": "layout-of-second-file"},
+                      f"two KROME files read with fileformats=\"krome\": line {i + 1} decodes to {got[i] if i < len(got) else None}, it names "
+                      f"{want[i] if i < len(want) else None} (the second file has no @format: its columns are the default layout)",
+                      input={"first_file": a.read_text().split(chr(10)), "second_file": b.read_text().split(chr(10))})
+
+
 def run_c07(argv):
     tier, seed = tier_and_seed(argv)
     chk = Check("C07", tier, seed, ["NaunetProps.C07", "NaunetProps.C07b", "NaunetProps.C07c"], C07_THEOREMS, C07_RULE)
@@ -388,6 +417,7 @@ def run_c07(argv):
                                                      "products": [s.name for s in g.products], "tmin": g.temp_min, "tmax": g.temp_max,
                                                      "rate": g.rate_string} for g in got]}))
     umist_multifit_witness(chk)
+    krome_two_files_one_format(chk)
     if getattr(chk, "lean_ok", False) and reqs:
         try:
             answers = lean_driver(reqs)
